@@ -8,14 +8,15 @@ by its UTF-8 bytes percent-encoded, an absent attribute as `-`):
 
   reset (v1|v2) <own>                                           → ok     (new client + manager)
   config <own>                                                  → ok     (the SAME client is reconfigured: account switch)
-  msg <tag> <id?> <from?> <to?> <junk 0|1> <n> child{n}         → h=<0|1> w=<0|1> <events>
+  msg <tag> <id?> <from?> <to?> <type?> <junk 0|1> <n> child{n} → h=<0|1> w=<0|1> <events>
     child := c <tag> <ns> <text> <n> fwd{n}
     fwd   := f <tag> <ns> <n> inner{n}
-    inner := m <tag> <ns> <id?> <from?> <to?> <body?> <nested 0|1>
-  events := `-` | ev;ev…   ev := (H|R|S|V)|id|from|to|body|<fwd 0|1>
+    inner := m <tag> <ns> <id?> <from?> <to?> <type?> <body?> <nested 0|1> <extras mask>
+  events := `-` | ev;ev…   ev := (H|R|S|V)|id|from|to|body|type|<fwd 0|1>
     H = message handler, R = QXmppClient::messageReceived, S/V = V1 messageSent / messageReceived
 
-`junk` (text and comment nodes between the children) is parsed and ignored: the modelled code only walks
+`junk` (text and comment nodes between the children), `nested` and `extras` (further payload inside an inner element)
+are parsed and ignored: the modelled code only walks
 element children.
 -/
 
@@ -70,11 +71,11 @@ def many {α : Type} (p : P α) : Nat → P (List α)
       | some (as, ts) => some (a :: as, ts)
 
 def pInner : P MsgNode
-  | "m" :: tag :: ns :: i :: f :: t :: b :: n :: rest =>
-    match reqStr tag, reqStr ns, optStr i, optStr f, optStr t, optStr b, flag n with
-    | some tag, some ns, some i, some f, some t, some b, some n =>
-      some ({ tag := tag, ns := ns, id := i, sender := f, to := t, body := b, nested := n }, rest)
-    | _, _, _, _, _, _, _ => none
+  | "m" :: tag :: ns :: i :: f :: t :: ty :: b :: n :: x :: rest =>
+    match reqStr tag, reqStr ns, optStr i, optStr f, optStr t, optStr ty, optStr b, flag n, x.toNat? with
+    | some tag, some ns, some i, some f, some t, some ty, some b, some n, some x =>
+      some ({ tag := tag, ns := ns, id := i, sender := f, to := t, body := b, typ := ty, nested := n, extras := x }, rest)
+    | _, _, _, _, _, _, _, _, _ => none
   | _ => none
 
 def pFwd : P FwdNode
@@ -98,17 +99,17 @@ def pChild : P Child
   | _ => none
 
 def pOuter : List String → Option Outer
-  | tag :: i :: f :: t :: junk :: n :: rest =>
-    match reqStr tag, optStr i, optStr f, optStr t, flag junk, n.toNat? with
-    | some tag, some i, some f, some t, some _, some n =>
+  | tag :: i :: f :: t :: ty :: junk :: n :: rest =>
+    match reqStr tag, optStr i, optStr f, optStr t, optStr ty, flag junk, n.toNat? with
+    | some tag, some i, some f, some t, some ty, some _, some n =>
       match many pChild n rest with
-      | some (ks, []) => some { tag := tag, id := i, sender := f, to := t, kids := ks }
+      | some (ks, []) => some { tag := tag, id := i, sender := f, to := t, typ := ty, kids := ks }
       | _ => none
-    | _, _, _, _, _, _ => none
+    | _, _, _, _, _, _, _ => none
   | _ => none
 
 def showMsg (k : String) (m : Msg) : String :=
-  s!"{k}|{pctEncode m.id}|{pctEncode m.sender}|{pctEncode m.to}|{pctEncode m.body}|{if m.carbonForwarded then 1 else 0}"
+  s!"{k}|{pctEncode m.id}|{pctEncode m.sender}|{pctEncode m.to}|{pctEncode m.body}|{pctEncode m.type}|{if m.carbonForwarded then 1 else 0}"
 
 def showEv : Ev → String
   | .handler m => showMsg "H" m
